@@ -375,3 +375,16 @@ MODULES["Sparse"] = dict(
         dict(name="sp_to_dense", file=SPR, impl=SP_IMPL, fn="to_dense"),
         dict(name="sp_insert", file=SPR, impl=SP_IMPL, fn="insert"),
     ])
+
+# ---------------------------------------------------------------------------------------------------- Vector<f64> only (vec_f64.rs)
+# over an SArith F (sqrt, of_nat) with the two calls that are not IEEE primitives as Section variables, exactly as the
+# hand-written model does (Model/Vector.v, Section Vec64): fabs = the inherent f64::abs, powf = libm pow
+V_F64 = "src/vector/vec_f64.rs"
+MODULES["Vec64"] = dict(
+    imports="From OV Require Import Base.Panic Base.Arith Model.Vector gen.SrcPrelude.",
+    context=["Context {F : SArith}.", "Variable fabs : F -> F.", "Variable powf : F -> F -> F.", "Local Notation A := (SA F)."],
+    spec=dict(sarith=True,
+              methods={("elem", "abs", 0): dict(g="fabs {0}", ret="elem")},
+              paths={("f64::powf", 2): dict(g="powf {0} {1}", ret="elem", args=["elem", "elem"]),
+                     ("f64::sqrt", 1): dict(g="sqrt {0}", ret="elem", args=["elem"])}),
+    funcs=[dict(name=n, file=V_F64, impl=r"^Vector<f64>$", fn=n) for n in ["linspace", "powspace", "norm_2", "norm_p", "norm_inf"]])
